@@ -410,7 +410,7 @@ class ConcAlg(object):
     tol = 1e-9
 
     def E(self, x):
-        return math.exp(x) if x != -float('inf') else 0.0
+        return math.exp(min(x, 700.0)) if x != -float('inf') else 0.0
 
     def T(self, x):
         return float(x)
